@@ -97,6 +97,12 @@ def s2(tier):
                 for route in grammar.ROUTES:
                     if ctx == 'result_attr' and route == 'partial':
                         continue        # a partial object has no attribute every callee result has
+                    if ctx == 'ifelse_same':
+                        # the same callee object on both branches, the second call writes one more keyword
+                        kw = [n for n in space.kwpass(c) if n not in cs.names]
+                        if kw:
+                            out.append(Prog(o, (cs, CallSpec(c, cs.npos, cs.names + (kw[-1],), cs.va, cs.vk)), ctx, route, None))
+                        continue
                     if ctx in ('ifelse', 'nested_ifelse_arg'):
                         # two calls: same callee shape twice, and a second callee with one more optional parameter
                         other = c + (('zz', KWO, True),) if not space.has(c, VK) else c
@@ -152,6 +158,8 @@ def s4(tier):
         for cs in four_argshapes(o, c):
             for ctx in ('return', 'assign', 'nested', 'arg_of_call'):
                 out.append(Prog(o, (cs,), ctx, 'method_default', None))
+            for ctx in ('return', 'if', 'nested'):
+                out.append(Prog(o, (cs,), ctx, 'wrapssig', None))
     return out
 
 
@@ -159,4 +167,4 @@ def all_slices(tier):
     return [('S1 shapes x argument shapes (return, global)', s1(tier)),
             ('S2 contexts x routes', s2(tier)),
             ('S3 taints, foreign and combined stars', s3(tier)),
-            ('S4 callee given as a parameter default', s4(tier))]
+            ('S4 callee given as a parameter default; wrapper carrying a copied __signature__', s4(tier))]
